@@ -2011,13 +2011,21 @@ func (s *SelectStatement) SetTimeRange(start, end time.Time) error {
 	return nil
 }
 
+// isTimeRef reports whether the expression is a reference to the time column.
+func isTimeRef(e Expr) bool {
+	ref, ok := e.(*VarRef)
+	return ok && strings.ToLower(ref.Val) == "time"
+}
+
 // rewriteWithoutTimeDimensions will remove any WHERE time... clauses from the select statement.
 // This is necessary when setting an explicit time range to override any that previously existed.
 func (s *SelectStatement) rewriteWithoutTimeDimensions() string {
 	n := RewriteFunc(s.Condition, func(n Node) Node {
 		switch n := n.(type) {
 		case *BinaryExpr:
-			if n.LHS.String() == "time" {
+			// A time bound may be written with time on either side and in any
+			// letter case, as ConditionExpr accepts it.
+			if isTimeRef(n.LHS) || isTimeRef(n.RHS) {
 				return &BooleanLiteral{Val: true}
 			}
 			return n
